@@ -408,6 +408,157 @@ def applyApiToken (r : ApiReq) (t : String) : Option ApiReq :=
   | ["dreward", v] => v.toNat?.map fun v => { r with dreward := v }
   | _ => none
 
+/-! ### `memo`: distribution-level memoisation (PGModel/Memo.lean) -/
+
+mutual
+/-- reward syntax of the `memo` command (no blanks): `th` `tth` `tbl` `u` (UnitReward) `s<i>` (UnfoldedSFS)
+`f<i>` (FoldedSFS) `l<n>` (Lineage) `d<i>` (Deme, axis index) `c<l>` (Locus) `x<l>` (TotalBranchLengthLocus)
+`S(e,e,…)` (SumReward) `P(e,e,…)` (ProductReward) -/
+partial def memoReward? : List Char → Option (Reward × List Char)
+  | 'S' :: '(' :: cs => (memoArgs? cs).map fun (rs, rest) => (Reward.sum rs, rest)
+  | 'P' :: '(' :: cs => (memoArgs? cs).map fun (rs, rest) => (Reward.prod rs, rest)
+  | cs =>
+    let name := String.ofList (cs.takeWhile Char.isAlpha)
+    let rest1 := cs.dropWhile Char.isAlpha
+    let num := (String.ofList (rest1.takeWhile Char.isDigit)).toNat?
+    let rest := rest1.dropWhile Char.isDigit
+    match name, num with
+    | "th", none => some (.treeHeight, rest)
+    | "tth", none => some (.totalTreeHeight, rest)
+    | "tbl", none => some (.totalBranchLength, rest)
+    | "u", none => some (.unit, rest)
+    | "s", some i => some (.unfoldedSFS i, rest)
+    | "f", some i => some (.foldedSFS i, rest)
+    | "l", some i => some (.lineage i, rest)
+    | "d", some i => some (.deme i, rest)
+    | "c", some i => some (.locus i, rest)
+    | "x", some i => some (.tblLocus i, rest)
+    | _, _ => none
+/-- the children of a composite up to the closing bracket -/
+partial def memoArgs? : List Char → Option (List Reward × List Char)
+  | ')' :: rest => some ([], rest)
+  | cs => do
+    let (r, rest) ← memoReward? cs
+    match rest with
+    | ',' :: rest' =>
+      let (rs, rest'') ← memoArgs? rest'
+      if rs.isEmpty then none else some (r :: rs, rest'')
+    | ')' :: rest' => some ([r], rest')
+    | _ => none
+end
+
+def memoReward1? (s : String) : Option Reward :=
+  match memoReward? s.toList with
+  | some (r, []) => some r
+  | _ => none
+
+/-- a reward tuple: `-` argument omitted, `()` the empty tuple, else `e;e;…` -/
+def memoTuple? (s : String) : Option (Option (List Reward)) :=
+  if s == "-" then some none
+  else if s == "()" then some (some [])
+  else ((s.splitOn ";").mapM memoReward1?).map some
+
+def memoOptRat? (s : String) : Option (Option Rat) :=
+  if s == "-" then some none else (parseRat? s).map some
+
+def memoOptBool? (s : String) : Option (Option Bool) :=
+  if s == "-" then some none else if s == "1" then some (some true)
+  else if s == "0" then some (some false) else none
+
+def memoVariant? (s : String) : Option Memo.Variant :=
+  (s.splitOn "+").foldlM (fun (v : Memo.Variant) t =>
+    match t with
+    | "current" => some v
+    | "frozenset" => some { v with scheme := .frozensetComposite }
+    | "baseclass" => some { v with scheme := .baseClassHash }
+    | "corrinplace" => some { v with corr := .inPlace }
+    | "inplacesum" => some { v with sum := .inPlaceSum }
+    | "notheta" => some { v with pkey := .noTheta }
+    | _ => none) Memo.Variant.current
+
+def memoQuery? (t : String) : Option Memo.Query :=
+  match t.splitOn ":" with
+  | ["mean"] => some .mean
+  | ["var"] => some .var
+  | ["cov"] => some .cov
+  | ["corr"] => some .corr
+  | ["p", th] => (parseRat? th).map Memo.Query.getP
+  | ["m", k, rs, st, en, ce, pe] => do
+    let k ← k.toNat?
+    let rs ← memoTuple? rs
+    let st ← memoOptRat? st
+    let en ← memoOptRat? en
+    let ce ← memoOptBool? ce
+    let pe ← memoOptBool? pe
+    return .moment { k := k, rewards := rs, start := st, stop := en, center := ce, permute := pe }
+  | ["a", k, ts, rs, pe] => do
+    let k ← k.toNat?
+    let ts ← parseList? parseRat? ts
+    let rs ← (← memoTuple? rs)
+    let pe ← (← memoOptBool? pe)
+    return .accumulate { k := k, endTimes := ts, rewards := rs, permute := pe }
+  | _ => none
+
+/-- `memo <variant[+variant…]> [tmax=<rat>] [start=<rat>] [reward=<e>] [lower=fresh] <query> <query> …`
+(`lower=fresh`: the object is a `Coalescent`, the `_accumulate` entries are forgotten after every query) with
+variants `current | frozenset | baseclass | corrinplace | inplacesum | notheta` and queries
+`m:<k>:<rewards>:<start>:<end>:<center>:<permute>` (`-` = argument omitted) |
+`a:<k>:<t,t,…>:<rewards>:<permute>` (public uncentred `accumulate`) | `mean` | `var` | `cov` | `corr` | `p:<theta>`:
+the history is run on ONE object of `PGModel/Memo.lean` with the conventional numerics `Memo.conventional`
+(`acc` = `polyHash` of the canonical call text `a|k|t,…|key;key;…` mod 1000000007, `moment` = Σ (i+1)·(value of
+its i-th uncentred `accumulate` call), `cov = 3·mean + 1`, `corr = cov / (var + 1)`, `_get_P` = `polyHash "p|θ"`).
+Answer: `<answers, comma separated> | <one token per query: h|m / Δ moment hits / Δ moment misses /
+Δ _accumulate hits / Δ _accumulate misses> | <one verdict per query: = the value of a fresh object;
+q<j> the fresh value of query j of the history; a<j> the (wrong) answer given to query j; x none of these>`.
+`h` = the memoised call (moment, p) was a hit / the property slot was filled / every `_accumulate` call of an
+`a` query was a hit. -/
+def handleMemo : List String → Option String
+  | v :: toks => do
+    let vr ← memoVariant? v
+    let isOpt (t : String) := t.startsWith "tmax=" || t.startsWith "start=" || t.startsWith "reward=" || t == "lower=fresh"
+    let opts := toks.takeWhile isOpt
+    let qtoks := toks.dropWhile isOpt
+    let o ← opts.foldlM (fun (o : Memo.Obj) t =>
+      match t.splitOn "=" with
+      | ["tmax", x] => (parseRat? x).map fun x => { o with tMax := x }
+      | ["start", x] => (parseRat? x).map fun x => { o with startDefault := x }
+      | ["reward", x] => (memoReward1? x).map fun x => { o with reward := x }
+      | ["lower", "fresh"] => some o
+      | _ => none) ({} : Memo.Obj)
+    let forget := opts.contains "lower=fresh"
+    let qs ← qtoks.mapM memoQuery?
+    let F := Memo.conventional o
+    -- replay, keeping the state before and after every query
+    let (_, rows) := qs.foldl (fun (acc : Memo.State Rat × List (Memo.Query × Memo.State Rat × Memo.State Rat × Rat)) q =>
+      let (st1, a) := Memo.run vr F acc.1 q
+      ((if forget then st1.forgetLower else st1), acc.2 ++ [(q, acc.1, st1, a)])) (Memo.init, [])
+    let answers := rows.map fun r => r.2.2.2
+    let specs := qs.map (Memo.spec F)
+    let flags := rows.map fun (q, s0, s1, _) =>
+      let dmh := s1.info.momHits - s0.info.momHits
+      let dmm := s1.info.momMisses - s0.info.momMisses
+      let dah := s1.info.accHits - s0.info.accHits
+      let dam := s1.info.accMisses - s0.info.accMisses
+      let hit : Bool := match q with
+        | .moment _ => dmm == 0
+        | .accumulate _ => dam == 0
+        | .mean => s0.mean.isSome
+        | .var => s0.var.isSome
+        | .cov => s0.cov.isSome
+        | .corr => s0.corr.isSome
+        | .getP _ => s1.info.pHits > s0.info.pHits
+      s!"{if hit then "h" else "m"}/{dmh}/{dmm}/{dah}/{dam}"
+    let verdicts := (List.range qs.length).map fun i =>
+      let a := answers.getD i 0
+      if a == specs.getD i 0 then "="
+      else match specs.findIdx? (· == a) with
+        | some j => s!"q{j}"
+        | none => match (answers.take i).findIdx? (· == a) with
+          | some j => s!"a{j}"
+          | none => "x"
+    return s!"{showListOr showRat "," answers} | {showListOr id " " flags} | {showListOr id " " verdicts}"
+  | [] => none
+
 /-- `api <variant c|f|n> <acc|mom> k=<int> rewards=<none|-|id,id,…> start=<none|rat> end=<none|rat>
 times=<rat,…|-> center=<0|1> permute=<0|1> dstart=<rat> tmax=<rat> [dreward=<id>]`
 (`key=value` tokens in any order, missing ones keep the defaults of `ApiReq`; `rewards=-` is the empty
@@ -730,6 +881,7 @@ def handle (c : Ctx) (line : String) : Ctx × String :=
     | some ans => (c, ans)
     | none => bad
   | "api" :: toks => (c, (handleApi toks).getD "bad-request")
+  | "memo" :: toks => (c, (handleMemo toks).getD "bad-request")
   | ["selftest"] =>
     -- exp of a nilpotent matrix is exact; exp(A)·exp(A) = exp(2A); rows of exp(Q) sum to one
     let nil := FMat.ofFn 3 fun i j => if j = i + 1 then 1 else 0
